@@ -11,6 +11,13 @@ ROOT = os.path.dirname(os.path.dirname(os.path.abspath(__file__)))
 only = sys.argv[1].split(",") if len(sys.argv) > 1 and sys.argv[1] != "all" else None
 NUMS = [int(x) for x in sys.argv[2].split(",")] if len(sys.argv) > 2 else [1, 2]
 extra = {}  # property -> additional checks worth running
+done = set()
+if os.path.exists("/tmp/mut/results.jsonl"):
+    for l in open("/tmp/mut/results.jsonl"):
+        try:
+            done.add(json.loads(l)["name"])
+        except (ValueError, KeyError):
+            pass
 jobs = []
 for d in sorted(glob.glob("/tmp/mut/C*/out")):
     pid = d.split("/")[3]
@@ -18,7 +25,7 @@ for d in sorted(glob.glob("/tmp/mut/C*/out")):
         continue
     for n in NUMS:
         patch, demo_src = os.path.join(d, "patch%d.diff" % n), os.path.join(d, "demo%d.cpp" % n)
-        if os.path.exists(patch) and os.path.exists(demo_src):
+        if os.path.exists(patch) and os.path.exists(demo_src) and "%s_%d" % (pid, n) not in done:
             jobs.append((pid, n, patch, demo_src))
 
 
